@@ -10,7 +10,7 @@
    sequence counter (so also across its wrap).  [s] below is any reachable state.
    This file holds only the property theorems; each is closed by a lemma of Proofs.v. *)
 From Coq Require Import ZArith List Bool.
-From FV Require Import Generated.Consts C15.Model C15.Proofs.
+From FV Require Import Generated.Consts C15.Model C15.Proofs C15.Reuse.
 Import ListNotations.
 Open Scope Z_scope.
 
@@ -153,6 +153,41 @@ Theorem c15_all_completed_once : forall c0 ops, u16 c0 ->
   Permutation.Permutation (map kcid (completions (snd (run (init c0) ops)))) (ids (ncalls s)).
 Proof. exact all_completed_once. Qed.
 Print Assumptions c15_all_completed_once.
+
+(* ... the same from the sweep onwards: while the call sits on the expired list, after ReapTimeout
+   has completed it, whatever operations (coarse or two-phase) happen in between — as long as no
+   newer call has been given the same number ([avoids]) *)
+Theorem c15_late_unmatched_general : forall s now k c, reachable s ->
+  In (k, c) (pending s) -> cdl c < now ->
+  forall ops, avoids k (fst (step s (OSweep now))) ops ->
+  forall r, rseq r = k ->
+  let s2 := fst (run (fst (step s (OSweep now))) ops) in
+  step s2 (ODispatch r) = (s2, mkout 0 1 []) /\ step s2 (OStrip r) = (s2, mkout 0 1 []).
+Proof. intros s now k c R. apply late_unmatched_general. apply reachable_Inv. exact R. Qed.
+Print Assumptions c15_late_unmatched_general.
+
+(* the limit of it, as a theorem: once a newer call HAS been given the number, a (late) response
+   with that number completes the newer call ... *)
+Theorem c15_late_hits_reissued : forall s sync dl, reachable s ->
+  forall s' x, step s (OCall sync dl) = (s', x) -> oseq x <> 0 ->
+  forall r, rseq r = oseq x ->
+  ocomps (snd (step s' (ODispatch r))) = [complete (mkctx (ncalls s) sync dl) r].
+Proof. intros s sync dl R. apply late_hits_reissued. apply reachable_Inv. exact R. Qed.
+Print Assumptions c15_late_hits_reissued.
+
+(* ... and this does happen, but only after the 16-bit counter has gone once round: a history in
+   which call 0 (number 1) times out and is completed, 65534 further calls are made and answered,
+   and the next call is given number 1 again — the late response to call 0 completes call 65535 *)
+Theorem c15_reuse_after_wrap :
+  let s := fst (run (init 0) reuse_ops) in
+  let outs := snd (run (init 0) reuse_ops) in
+  firstn 3 outs = [mkout 1 0 []; mkout 0 0 []; mkout 0 1 [mkcomp 0 1 codes_RequestTimeout (-1)]] /\
+  pending s = [] /\ ncalls s = 65535 /\
+  forall r, rseq r = 1 ->
+    ocomps (snd (step (fst (step s (OCall false 1000000))) (ODispatch r))) =
+    [complete (mkctx 65535 false 1000000) r].
+Proof. exact reuse_happens. Qed.
+Print Assumptions c15_reuse_after_wrap.
 
 (* over any history no call is completed twice *)
 Theorem c15_at_most_once : forall c0 ops, u16 c0 ->
